@@ -9,6 +9,7 @@ mod nodeenv;
 mod peer;
 mod procs;
 mod runner;
+mod sender;
 mod scen;
 mod wire;
 
